@@ -49,3 +49,6 @@ func VerifNewTxWatcher(ctx context.Context, lndClient lnrpc.LightningClient, cha
 		waitForCsvWatchers:   make(map[string]bool),
 	}
 }
+
+// VerifSetPubkey sets the node's own identity pubkey (NewClient reads it from GetInfo).
+func (l *Client) VerifSetPubkey(pubkey string) { l.pubkey = pubkey }
